@@ -16,11 +16,11 @@ import (
 // Implementation-only op (no model counterpart; generated as `@tparam …`): the coherence laws on an object type with ONE
 // type parameter.
 //
-//   tparam K V A      K ::= int | str | type      the parameter's type: Integer, String or Type
-//                     V ::= - | (i N) | (s xHEX) | int | str | bool | any     the value given for it (a type name when K = type)
-//                     A ::= integer                the value of the required attribute `a`
+//	tparam K V A      K ::= int | str | type      the parameter's type: Integer, String or Type
+//	                  V ::= - | (i N) | (s xHEX) | int | str | bool | any     the value given for it (a type name when K = type)
+//	                  A ::= integer                the value of the required attribute `a`
 //
-//   type T = Object[{type_parameters => {p => <K>}, attributes => {a => Integer, p => {type => Optional[<K>], value => undef}}}]
+//	type T = Object[{type_parameters => {p => <K>}, attributes => {a => Integer, p => {type => Optional[<K>], value => undef}}}]
 //
 // An instance that is given a value for `p` gets the parameterized type `T[V]`.  Checked: positional = named, init-hash
 // round trip, Get(p) = the value given or undef, instance of the base type T, and instance of its OWN type (`o.PType()`),
@@ -65,7 +65,9 @@ func execTParam(c px.Context, args []sx.Sexp) core.Result {
 	name := fmt.Sprintf("C17p%d::T", n)
 	text := fmt.Sprintf("type %s = Object[{type_parameters => {'p' => %s}, attributes => {'a' => Integer, 'p' => {type => Optional[%s], value => undef}}}]", name, pt, pt)
 	var fails []failure
-	add := func(class, format string, xs ...interface{}) { fails = append(fails, failure{class, fmt.Sprintf(format, xs...)}) }
+	add := func(class, format string, xs ...interface{}) {
+		fails = append(fails, failure{class, fmt.Sprintf(format, xs...)})
+	}
 	out := "ok"
 	px.DoWithContext(c.Fork(), func(fc px.Context) {
 		var t px.Type
@@ -117,6 +119,20 @@ func execTParam(c px.Context, args []sx.Sexp) core.Result {
 			}
 			if !px.IsInstance(o1.PType(), o2) || !px.IsInstance(o2.PType(), o1) {
 				add("tparam-own-type", "equal objects of type %s / %s are not instances of each other's type", o1.PType(), o2.PType())
+			}
+			// the DEFINITION itself prints and reads back: the anonymous twin of the same definition (a named type prints as
+			// its name), its init hash, and the parameterized type of the instance
+			anon := fc.ParseType(strings.SplitN(text, " = ", 2)[1])
+			at := anon.String()
+			if back := fc.ParseType(at); !back.Equals(anon, nil) || back.String() != at {
+				add("tparam-print", "the definition prints as %s, which reads back as a different type", at)
+			}
+			_ = anon.(px.PuppetObject).InitHash().String()
+			if pv != nil {
+				ext := o1.PType().String()
+				if back := fc.ParseType(ext); !back.Equals(o1.PType(), nil) {
+					add("tparam-print", "the parameterized type prints as %s, which reads back as a different type", ext)
+				}
 			}
 		})
 		if cls != "" {
